@@ -957,11 +957,19 @@ class SNum:
             for _ in range(o):
                 r = r * self
             return r
-        if o == 0.5 or o == Fraction(1, 2):
+        if not is_sym(o) and (o == 0.5 or o == Fraction(1, 2)):
             return sym_sqrt(self)
+        if isinstance(o, (SNum, int, float, Fraction)) and not isinstance(o, bool):
+            # x ** w := exp(w * log x) for x > 0 (log / exp are the engine's uninterpreted pair with inverse axioms)
+            if self > 0:
+                return (o * self.log()).exp()
         raise ModelGap("pow with exponent %r" % (o,))
 
     def __rpow__(self, o):
+        if isinstance(o, (int, float, Fraction)) and not isinstance(o, bool) and o > 0:
+            from . import mnp
+
+            return (self * mnp.log(o)).exp()
         raise ModelGap("pow with symbolic exponent")
 
     def __lt__(self, o):
